@@ -42,7 +42,7 @@ def generate(T, tier):
 pub const CAP_M_%(num)s: [u8; %(n)d] = [%(mb)s];
 /// hostile frame: %(nsat)d satellites x 31 recognised entries = %(tot)d entries > capacity 390, all bias bits symbolic
 #[kani::proof]
-#[kani::unwind(392)]
+#[kani::unwind(66)]
 pub fn capacity_%(num)s() {
     use rtcm_rs::verif_hooks::dfs::df_msg%(num)s_biases as c;
     let sym: [u8; %(n)d] = kani::any();
@@ -70,7 +70,7 @@ pub fn capacity_%(num)s() {
     gen.write_gen("c16_list.rs", "use crate::util::*;\n" + "\n".join(code))
     return {
         "harnesses": hs,
-        "groups": {"main": {"features": ["c16"], "timeout_s": 2400}, "wide": {"features": ["c16"], "timeout_s": 3000}, "cap": {"features": ["c16"], "timeout_s": 3300}},
+        "groups": {"main": {"features": ["c16"], "timeout_s": 2400, "unwindset": [["try_from_fn_erased", 392]]}, "wide": {"features": ["c16"], "timeout_s": 3000, "unwindset": [["try_from_fn_erased", 392]]}, "cap": {"features": ["c16"], "timeout_s": 3300, "unwindset": [["try_from_fn_erased", 392]]}},
         "level": "model_checking",
         "functions": ["df::dfs::df_msg1059_biases::{encode,decode}", "df::dfs::df_msg1065_biases::{encode,decode}", "df::dfs::df_msg1230_biases::{encode,decode}"],
         "bounds": {"one": "single entry fully symbolic", "group": "3 entries on 6 (1059) / 4 (1065) concrete satellite arrangements, signals and biases symbolic",
